@@ -427,4 +427,95 @@ theorem C29_histories (wo : WidthOps W) (ho : HeightOps H) (LW : WidthLaws wo) (
     rw [← step_refines wo ho LW LH s hwf op]
     exact ih _ hwf'
 
+/-! ## The statement as one proposition, per variant of the code -/
+
+/-- C29 for a variant `q` of the column code, on the exact instances: every history from every
+    well-formed layout denotes what the one-attribute updates give -/
+def C29_full (q : Quirks) : Prop :=
+  ∀ (ops : List (Op Nat Nat)) (s : Sheet Nat Nat), WfCols s.cols →
+    denote natWidthOps natHeightOps (ops.foldl (applyOp natWidthOps natHeightOps q) s)
+      = ops.foldl (specOp natWidthOps natHeightOps) (denote natWidthOps natHeightOps s)
+
+theorem natWidthLaws : WidthLaws natWidthOps :=
+  ⟨rfl, fun w h => by simpa [natWidthOps] using h, fun _ => rfl⟩
+
+theorem natHeightLaws : HeightLaws natHeightOps := ⟨rfl⟩
+
+/-- the repaired code satisfies the full statement -/
+theorem C29_fixed : C29_full Quirks.fixed :=
+  fun ops s hwf => (C29_histories natWidthOps natHeightOps natWidthLaws natHeightLaws ops s hwf).1
+
+/-- F29a (pinned tree): a style set on a column inside a multi-column descriptor is dropped -/
+theorem pinned_F29a_style_dropped_in_span :
+    setColumnStyle natWidthOps Quirks.pinned [⟨1, 5, 10, false, false, none⟩] 3 7
+      = .ok [⟨1, 2, 10, false, false, none⟩, ⟨3, 3, 90, false, false, none⟩, ⟨4, 5, 10, false, false, none⟩] := by
+  decide
+
+/-- F29b (pinned tree): styling a hidden column stores width 0: it unhides with width 0 instead of 120 -/
+theorem pinned_F29b_hidden_styled_column_loses_width :
+    (do let c1 ← setColumnWidth natWidthOps Quirks.pinned [] 3 120
+        let c2 ← setColumnHidden natWidthOps Quirks.pinned c1 3 true
+        let c3 ← setColumnStyle natWidthOps Quirks.pinned c2 3 7
+        let c4 ← setColumnHidden natWidthOps Quirks.pinned c3 3 false
+        getColumnWidth natWidthOps c4 3) = .ok 0 := by
+  decide
+
+/-- F29c (pinned tree): deleting the style of a hidden column unhides it -/
+theorem pinned_F29c_delete_style_unhides :
+    deleteColumnStyle Quirks.pinned [(⟨2, 4, 10, false, true, some 3⟩ : Col Nat)] 3
+      = .ok [⟨2, 2, 10, false, true, some 3⟩, ⟨4, 4, 10, false, true, some 3⟩] := by
+  decide
+
+/-- the pinned code violates the full statement (witness: F29a) -/
+theorem C29_pinned_false : ¬ C29_full Quirks.pinned := by
+  intro h
+  have h1 := h [.setColStyle 3 7] ⟨[⟨1, 5, 10, false, false, none⟩], []⟩ (by decide)
+  have h2 := congrArg (fun d => (d.col 3).style) h1
+  revert h2
+  decide
+
+/-- each of the three repaired lines is needed: with any one pinned line left the statement is false -/
+theorem C29_each_fix_needed :
+    ¬ C29_full ⟨true, false, false⟩ ∧ ¬ C29_full ⟨false, true, false⟩ ∧ ¬ C29_full ⟨false, false, true⟩ := by
+  refine ⟨?_, ?_, ?_⟩
+  · intro h
+    have h1 := h [.setColStyle 3 7] ⟨[⟨1, 5, 10, false, false, none⟩], []⟩ (by decide)
+    have h2 := congrArg (fun d => (d.col 3).style) h1
+    revert h2; decide
+  · intro h
+    have h1 := h [.setColStyle 3 7] ⟨[⟨3, 3, 120, true, true, none⟩], []⟩ (by decide)
+    have h2 := congrArg (fun d => (d.col 3).width) h1
+    revert h2; decide
+  · intro h
+    have h1 := h [.delColStyle 3] ⟨[⟨2, 4, 10, false, true, some 3⟩], []⟩ (by decide)
+    have h2 := congrArg (fun d => (d.col 3).hidden) h1
+    revert h2; decide
+
+/-- sortedness matters for delete_column_style only: in an overlapping list a later descriptor
+    shows through when the column's own descriptor is dropped (why `delete_style_frame` asks for `WfCols`) -/
+theorem delete_style_needs_disjoint :
+    ∃ cols cols', deleteColumnStyle Quirks.fixed cols 3 = .ok cols' ∧
+      (colAttr natWidthOps cols' 3).style ≠ none :=
+  ⟨[⟨3, 3, 10, false, false, some 1⟩, ⟨1, 5, 10, false, false, some 2⟩], _, rfl, by decide⟩
+
+/-! ## Non-vacuity: the hypotheses are met by concrete, non-trivial states -/
+
+/-- a layout with two multi-column descriptors, a gap, a hidden styled span -/
+def exampleCols : List (Col Nat) :=
+  [⟨2, 5, 20, true, false, some 1⟩, ⟨6, 6, 10, false, true, none⟩, ⟨9, 16384, 30, true, true, some 2⟩]
+
+example : WfCols exampleCols := by decide
+example : setColumnStyle natWidthOps Quirks.fixed exampleCols 12 5 =
+    .ok [⟨2, 5, 20, true, false, some 1⟩, ⟨6, 6, 10, false, true, none⟩, ⟨9, 11, 30, true, true, some 2⟩,
+         ⟨12, 12, 30, true, true, some 5⟩, ⟨13, 16384, 30, true, true, some 2⟩] := by decide
+example : (colAttr natWidthOps exampleCols 12) = ⟨30, true, some 2⟩ := by decide
+example : ∃ cols', setColumnHidden natWidthOps Quirks.fixed exampleCols 3 true = .ok cols' := ⟨_, rfl⟩
+example : ∃ cols', deleteColumnStyle Quirks.fixed exampleCols 9 = .ok cols' ∧ cols'.length = 4 := ⟨_, rfl, by decide⟩
+example : ∃ rows', setRowHeight natHeightOps [⟨4, 16, true, false, 3, true⟩, ⟨4, 99, false, false, 0, false⟩] 4 40 = .ok rows' :=
+  ⟨_, rfl⟩
+example : NoDupRows [(⟨4, 16, true, false, 3, true⟩ : Row Nat), ⟨7, 99, false, false, 0, false⟩] := by decide
+example : (denote natWidthOps natHeightOps
+    ([Op.setColStyle 12 5, .setColHidden 3 true, .delColStyle 9, .setRowStyle 4 2, .setColWidth 0 7].foldl
+      (applyOp natWidthOps natHeightOps Quirks.fixed) ⟨exampleCols, []⟩)).col 12 = ⟨30, true, some 5⟩ := by decide
+
 end IronCalc.Sheet
